@@ -407,6 +407,65 @@ impl G for E {
     }
 }
 
+/// variants whose wire names are the atoms the data model gives a meaning of their own
+#[derive(Debug, Clone, PartialEq, Serialize, Deserialize)]
+pub enum Kw {
+    #[serde(rename = "true")]
+    True,
+    #[serde(rename = "false")]
+    False,
+    #[serde(rename = "nil")]
+    Nil,
+    #[serde(rename = "undefined")]
+    Undefined,
+    #[serde(rename = "ok")]
+    Ok(u8),
+    #[serde(rename = "error")]
+    Error { nil: i16, undefined: bool },
+}
+impl G for Kw {
+    fn ty(out: &mut String) {
+        let h = |s: &str| hex(s.as_bytes());
+        out.push_str(&format!("E 6 {} pu {} pu {} pu {} pu {} pn U8 {} ps 2 {} I16 {} B", h("true"), h("false"), h("nil"), h("undefined"), h("ok"), h("error"), h("nil"), h("undefined")));
+    }
+    fn read(t: &mut Toks) -> Self {
+        expect(t, "E");
+        let idx: usize = t.num();
+        let _n: usize = t.num();
+        match idx {
+            0 => Kw::True,
+            1 => Kw::False,
+            2 => Kw::Nil,
+            3 => Kw::Undefined,
+            4 => Kw::Ok(G::read(t)),
+            5 => {
+                let nil = G::read(t);
+                let undefined = G::read(t);
+                Kw::Error { nil, undefined }
+            }
+            _ => panic!("bad variant"),
+        }
+    }
+    fn show(&self, out: &mut String) {
+        match self {
+            Kw::True => out.push_str("E 0 0"),
+            Kw::False => out.push_str("E 1 0"),
+            Kw::Nil => out.push_str("E 2 0"),
+            Kw::Undefined => out.push_str("E 3 0"),
+            Kw::Ok(a) => {
+                out.push_str("E 4 1 ");
+                a.show(out);
+            }
+            Kw::Error { nil, undefined } => {
+                out.push_str("E 5 2 ");
+                nil.show(out);
+                out.push(' ');
+                undefined.show(out);
+            }
+        }
+    }
+}
+
 fn run<T: G>(op: &str, rest: &str) -> String {
     match op {
         "rt" => {
@@ -459,6 +518,7 @@ fn registry() -> &'static Vec<(String, Runner)> {
             HashMap<String, i64>, BTreeMap<i64, String>, BTreeMap<u64, Vec<char>>, HashMap<String, Option<f32>>, BTreeMap<String, E>,
             HashMap<u32, (i8, String)>, BTreeMap<char, bool>,
             Plain, Nested, User, Team, E, Vec<Plain>, Option<User>, BTreeMap<String, Vec<(u8, E)>>,
+            Kw, Vec<Kw>, (Kw, bool), BTreeMap<String, Kw>,
         );
         v
     })
